@@ -113,9 +113,20 @@ def run(ctx):
             exact = int(1000 * q); legs = int(m.group(1)) if m.group(1) else 1
             if not m.group(1) and fam(s) == 'track' and not (k[0] == 1 and exact - 1 <= k[1] <= exact):
                 ctx.fail('athlib.discipline_sort_key', [s], 'track, ordered by distance %d m' % exact, repr(k), note='track not ordered by distance')
+            if m.group(1) and not (k[0] == 5 and exact - 1 <= k[1] <= exact):
+                ctx.fail('athlib.discipline_sort_key', [s], 'relay, ordered by its leg distance %d m' % exact, repr(k), note='relays not ordered by distance')
             d = athlib.get_distance(s)
             if d is None or not (legs * (exact - 1) <= d <= legs * exact):
                 ctx.fail('athlib.get_distance', [s], ('legs x leg distance = %d' if m.group(1) else 'distance %d m') % (legs * exact), repr(d), note='relay distance' if m.group(1) else 'kilometre distance')
+    # relays whose leg carries a unit or a hurdles mark: ordered by the leg's distance in metres (spec-side list)
+    for s, legm in [('4x1K', 1000), ('6x5K', 5000), ('4x1.5K', 1500), ('3x2K', 2000), ('4x1M', 1609), ('6x3M', 4827), ('4x100H', 100), ('4x400h', 400),
+                    ('4x60', 60), ('4x1500', 1500), ('12x10K', 10000), ('4X2.5K', 2500)]:
+        if not codes.PAT_EVENT_CODE.match(s): continue
+        st, k = call(athlib.discipline_sort_key, s)
+        ctx.count(1, 'relay_unit_legs')
+        if st != 'ok' or not (k[0] == 5 and legm - 1 <= k[1] <= legm):
+            ctx.fail('athlib.discipline_sort_key', [s], 'relay, ordered by its leg distance %d m: (5, %d, ...)' % (legm, legm), repr(k) if st == 'ok' else st, note='relays not ordered by distance',
+                     replay_py='result = athlib.discipline_sort_key(%r)' % s)
     conv = ['HJ', 'PV', 'LJ', 'TJ', 'SP', 'DT', 'HT', 'JT']
     ck = [athlib.discipline_sort_key(c) for c in conv]
     # jumps (3) before throws (4); within each, the conventional order
